@@ -246,6 +246,30 @@ pub fn run(ctx: &Ctx) {
             push(id, frontends::embed(id, c, k), k + 1, &mut jobs);
         }
     }
+    // 1b. small scope, exhaustive: every comment block of ≤ 3 lines over directive / empty /
+    //     marker-only / prose lines (Go: `//go:` directives with and without trailing blanks and
+    //     comment characters; the same skeletons on the other `//` languages)
+    const LINES: &[&str] = &["//go:generate stringer -type=Pill", "//go:x ", "//go:build linux\t", "//go:x --", "//go:x //", "//", "// ", "//-", "//\t", "// Pill is a kind of medicine.", "package demo"];
+    for id in ["go", "rust", "javascript", "c"] {
+        if !ids.iter().any(|i| i == id) {
+            continue;
+        }
+        let depth = if id == "go" { 3 } else { 2 };
+        let mut level: Vec<String> = vec![String::new()];
+        let mut k = 0usize;
+        for _ in 0..depth {
+            let mut next = vec![];
+            for pre in &level {
+                for l in LINES {
+                    let t = format!("{}{}\n", pre, l);
+                    push(id, t.clone(), k, &mut jobs);
+                    k += 1;
+                    next.push(t);
+                }
+            }
+            level = next;
+        }
+    }
     let n_corpus = jobs.len();
     // 2. structured + malformed, embedded in language-appropriate syntax
     let per_front = if ctx.tier == Tier::Thorough { 60 } else { 10 };
